@@ -113,9 +113,9 @@ CHECKS["C19"] = dict(
 
 CHECKS["C01"] = dict(
     level="exploration",
-    technique="TLA+ spec PanCallSpace defines the explored space (receiver x reachable property index tuples, token-representative pairs) and the legal outcome classes; TLC enumerates the index space, the harness expands argument tuples and replays everything into the real interpreter; recorded outcome classes are checked against the specification's Legal set by TLC",
-    text="Robustness exploration, not a proof of absence: ~200k (quick) / millions (thorough) runs over the built-in call space of the current tree (surface dumped at run time), token pairs/triples, corpus mutations, index/slice space, stdin shapes, partly through runscript.RunSource; a recovered Go panic, fatal error or worker death attributable to a case is a violation; fuel/deadline/heap cut-offs are discarded (the property's proviso).",
-    note="Trusts the worker's recover()/watchdogs and the classification of Go runtime resource-exhaustion panics at string repetition as discarded; web/wasm cannot be linked natively; the REPL loop is exercised only through the same parse/eval calls.",
+    technique="TLA+ spec PanCallSpace defines the explored space (receiver x reachable property index tuples, token-representative pairs) and the legal outcome classes; TLC enumerates the index space, the harness expands argument tuples and replays everything into the real interpreter; recorded outcome classes are checked against the specification's Legal set by TLC; TLA+ spec PanRepl (the interactive interpreter as a state machine: modes, blocks, prompts) is model-checked and its sessions are typed into runscript.StartREPL, transcripts compared with the prescribed ones",
+    text="Robustness exploration, not a proof of absence: ~200k (quick) / millions (thorough) runs over the built-in call space of the current tree (surface dumped at run time), token pairs/triples, corpus mutations, index/slice space, derived structures (conversions over descendants of str then expansion), stdin shapes, REPL sessions, partly through runscript.RunSource; a recovered Go panic, fatal error or worker death attributable to a case is a violation; fuel/deadline/heap cut-offs are discarded (the property's proviso).",
+    note="Trusts the worker's recover()/watchdogs and the classification of Go runtime resource-exhaustion panics at string repetition as discarded; web/wasm cannot be linked natively.",
     design="§5 C01")
 
 NOT_YET = {}
